@@ -256,7 +256,9 @@ fn plan_fci(f: &Fci, t: &mut Tape) -> FciPlan {
             let mut adds: Vec<(u32, u8)> = Vec::new();
             for (s, q) in entries {
                 for _ in 0..stale_count(t) {
-                    adds.push((*s, t.value() as u8));
+                    // stale sequences include the values a map slot may confuse with "absent"
+                    let v = t.value();
+                    adds.push((*s, [v as u8, 0, 0xff, q.wrapping_add(1)][(v >> 8) as usize % 4]));
                 }
                 adds.push((*s, *q));
             }
